@@ -191,6 +191,9 @@ func (p Params) values(w *World, v url.Values) {
 		v.Set("client_notification_token", w.notifTokenString(p.NotifToken))
 	}
 	set("user_code", p.UserCode)
+	for _, r := range p.Resources {
+		v.Add("resource", r)
+	}
 }
 
 func (w *World) notifTokenString(h Handle) string {
@@ -341,6 +344,9 @@ func (w *World) ExecWith(o Op) Obs {
 		if o.AuthReq != 0 {
 			v.Set("auth_req_id", w.concrete(o.AuthReq))
 		}
+		for _, r := range o.Resources {
+			v.Add("resource", r)
+		}
 		w.hg, w.ba = o.HG, o.BA
 		hdr := http.Header{}
 		w.applyBind(o.Bind, hdr, "POST", pfx+"/token")
@@ -406,7 +412,7 @@ func (w *World) ExecWith(o Op) Obs {
 		v := url.Values{}
 		w.applyCred(o.Cred, v)
 		o.Params.values(w, v)
-		w.initOK, w.initSub, w.initGr = o.InitOK, o.Sub, o.Granted
+		w.initOK, w.initSub, w.initGr, w.initRes = o.InitOK, o.Sub, o.Granted, o.GrantedRes
 		hdr := http.Header{}
 		w.applyBind(o.Bind, hdr, "POST", pfx+"/bc-authorize")
 		rec, pan := w.serve("POST", pfx+"/bc-authorize", v, hdr)
@@ -442,7 +448,43 @@ func (w *World) absInfo(info goidc.TokenInfo, err error) Obs {
 		}
 		return Obs{Kind: "Intro", Active: false, Raw: err.Error()}
 	}
-	return w.introObs(info.IsActive, string(info.Type), info.Scopes, info.ClientID, info.Subject, info.ExpiresAtTimestamp, info.Confirmation)
+	o := w.introObs(info.IsActive, string(info.Type), info.Scopes, info.ClientID, info.Subject, info.ExpiresAtTimestamp, info.Confirmation)
+	if o.Active && len(info.ResourceAudiences) > 0 {
+		o.Aud = append([]string(nil), info.ResourceAudiences...)
+	}
+	return o
+}
+
+// a goidc.Resources value as JSON: one string, or an array of strings
+func resourcesOf(v any) []string {
+	switch x := v.(type) {
+	case string:
+		return []string{x}
+	case []any:
+		var out []string
+		for _, e := range x {
+			if s, ok := e.(string); ok {
+				out = append(out, s)
+			}
+		}
+		return out
+	}
+	return nil
+}
+
+// the aud claim of a JWT access token (nil for an opaque token)
+func jwtAud(tok string) []string {
+	parts := strings.Split(tok, ".")
+	if len(parts) != 3 {
+		return nil
+	}
+	b, err := base64.RawURLEncoding.DecodeString(parts[1])
+	if err != nil {
+		return nil
+	}
+	var m map[string]any
+	_ = json.Unmarshal(b, &m)
+	return resourcesOf(m["aud"])
 }
 
 func (w *World) introObs(active bool, typ, scope, client, sub string, exp int, cnf *goidc.TokenConfirmation) Obs {
@@ -504,6 +546,8 @@ func (w *World) absJSON(rec interface {
 		o.Idt = str("id_token") != ""
 		o.Scope = str("scope")
 		o.Dpop = str("token_type") == "DPoP"
+		o.Res = resourcesOf(m["resources"])
+		o.Aud = jwtAud(at)
 		return o
 	case "par":
 		return Obs{Kind: "Par", H: w.handleOf(str("request_uri"), KParUri), Status: status, Raw: raw}
@@ -523,6 +567,9 @@ func (w *World) absJSON(rec interface {
 		}
 		exp, _ := m["exp"].(float64)
 		o := w.introObs(active, str("token_type"), str("scope"), str("client_id"), str("sub"), int(exp), cnf)
+		if active {
+			o.Aud = resourcesOf(m["aud"])
+		}
 		o.Status, o.Raw = status, raw
 		return o
 	case "revoke":
